@@ -149,3 +149,58 @@ ESCAPE_LITERALS = ["\\u{7FFFFFFF}", "\\u{80000000}", "\\u{FFFFFFFFFF}", "\\u{FFF
                    "\\u{0}", "\\u{}", "\\u{110000}", "\\u{D800}", "\\u{41", "\\u41}", "\\255", "\\256", "\\299", "\\300", "\\0", "\\00",
                    "\\000", "\\0000", "\\2555", "\\x", "\\x4", "\\x41", "\\xZZ", "\\xfF", "\\z", "\\z \n\t x", "\\\n", "\\\r\n", "\\\n\r",
                    "\\\r", "\\q", "\\", "\\'", '\\"', "\\\\", "\\a\\b\\f\\n\\r\\t\\v", "\\9", "\\99", "\\999", "\\1a", "\\25a"]
+
+
+# ---------------------------------------------------------------------------
+# structured programs with a known shape: (source bytes, expected number of top-level statements,
+# payload texts that must appear quoted in the printed AST).  Used for the AST-consistency oracle:
+# a statement or a token that silently disappears from the tree is a failure even when the exit status is 0.
+TOKEN_KINDS = ["ident", "dqstring", "sqstring", "longstring", "longstring2", "decnumber", "hexnumber", "comment", "longcomment", "callname"]
+BOUNDARY_LENGTHS = [253, 254, 255, 256, 257, 258, 509, 510, 511, 512, 513, 65533, 65534, 65535, 65536, 65537, 65538]
+
+
+def make_token(kind, n, fill="a"):
+    """A token of `kind` whose matched text (the part LPeg captures) is exactly n bytes long.
+    Returns (statement source, counts as statement?, payload expected in the AST or None)."""
+    if kind == "ident":
+        name = ("v" + fill * n)[:n] if n > 0 else "v"
+        return "local %s = 1" % name, True, name
+    if kind == "callname":
+        name = ("f" + fill * n)[:n] if n > 0 else "f"
+        return "%s(2)" % name, True, name
+    if kind == "dqstring":
+        s = fill * n
+        return 'print("%s")' % s, True, s
+    if kind == "sqstring":
+        s = fill * n
+        return "print('%s')" % s, True, s
+    if kind == "longstring":
+        s = fill * n
+        return "local ls = [[%s]]" % s, True, s
+    if kind == "longstring2":
+        s = fill * n
+        return "local ls2 = [==[%s]==]" % s, True, s
+    if kind == "decnumber":
+        s = ("1" + "0" * n)[:n] if n > 0 else "1"
+        return "local dn = %s" % s, True, s
+    if kind == "hexnumber":
+        s = ("0x" + "f" * n)[:max(n, 3)]
+        return "local hn = %s" % s, True, s
+    if kind == "comment":
+        return "--" + fill * max(n - 2, 0), False, None
+    if kind == "longcomment":
+        return "--[[" + fill * max(n - 6, 0) + "]]", False, None
+    raise KeyError(kind)
+
+
+def structured_program(kind, n, where, marker):
+    """Three fixed statements around one boundary token; `where` = 0/1/2 puts the token first / in the
+    middle / last but one.  The final statement is always a marker print that must survive."""
+    tok_src, counts, payload = make_token(kind, n)
+    stmts = ["local first = 10", "print(11)", "second(12)"]
+    stmts.insert(min(where, len(stmts)), tok_src)
+    stmts.append('print("%s")' % marker)
+    src = "\n".join(stmts) + "\n"
+    expected = 4 + (1 if counts else 0)
+    payloads = [marker] + ([payload] if payload is not None else [])
+    return src.encode("latin-1"), expected, payloads
